@@ -487,7 +487,9 @@ func c19callDirect(cl *c19callable, vm *ugo.VM, args []ugo.Object) (ugo.Object, 
 // c19callSplit calls cl with a live VM, the first k arguments as the call's normal arguments and the rest as its
 // variadic arguments (what `f(a, b, ...rest)` and Invoker-made calls produce). ok=false: the callable has no such entry.
 func c19callSplit(cl *c19callable, vm *ugo.VM, args []ugo.Object, k int) (v ugo.Object, err error, ok bool) {
-	mk := func() ugo.Call { return ugo.NewCall(vm, append([]ugo.Object{}, args[:k]...), append([]ugo.Object{}, args[k:]...)...) }
+	mk := func() ugo.Call {
+		return ugo.NewCall(vm, append([]ugo.Object{}, args[:k]...), append([]ugo.Object{}, args[k:]...)...)
+	}
 	callObj := func(f ugo.Object) (ugo.Object, error, bool) {
 		if f == nil || !f.CanCall() {
 			return nil, nil, false
